@@ -111,6 +111,31 @@ EXTENT_PATH = ['RW 2048 FLAT "/etc/passwd" 0',
                'RW 100 VMFS "/vmfs/volumes/x-flat.vmdk"']
 
 
+NAME_CHARS = 'abcXYZ019._-#~@%+,;:!$&()[]{}^= \''
+
+
+def extent_path_line(rng):
+    """An extent line whose file name is a path; the name may hold any
+    printable character a file name can."""
+    if rng.random() < 0.4:
+        return rng.choice(EXTENT_PATH)
+
+    def seg():
+        return ''.join(rng.choice(NAME_CHARS)
+                       for _ in range(rng.randint(1, 8))).strip() or 'd'
+    parts = [seg() for _ in range(rng.randint(1, 3))]
+    lead = rng.choice(('', '', '/', '../', './', '#/', 'a#b/'))
+    name = lead + '/'.join(parts)
+    if '/' not in name:
+        name = name + '/' + seg()
+    typ = rng.choice(('SPARSE', 'FLAT', 'VMFS', 'ZERO'))
+    line = '%s %d %s "%s"' % (rng.choice(('RW', 'RDONLY', 'NOACCESS')),
+                              rng.randrange(1, 1 << 30), typ, name)
+    if typ == 'FLAT':
+        line += ' %d' % rng.randrange(0, 4096)
+    return line
+
+
 def clean_desc(rng, create=None):
     create = create or rng.choice(CREATE_OK)
     lines = ['# Disk DescriptorFile', 'version=1',
@@ -148,12 +173,12 @@ def desc_traits(rng, lines):
         reasons.append('no_extent')
     elif kind == 'path':
         if rng.random() < 0.5:
-            lines[ei] = rng.choice(EXTENT_PATH)
+            lines[ei] = extent_path_line(rng)
         else:
-            lines.insert(ei + 1, rng.choice(EXTENT_PATH))
+            lines.insert(ei + 1, extent_path_line(rng))
         reasons.append('extent_path')
     elif kind == 'late_path':
-        lines.append(rng.choice(EXTENT_PATH))
+        lines.append(extent_path_line(rng))
         reasons.append('extent_path')
     elif kind == 'extra_ok':
         for _ in range(rng.randint(1, 4)):
